@@ -313,6 +313,7 @@ def check_generated(chk, quick):
             chk.count(cj(case), False)
             continue
         m = json.loads(parts[1])
+        m = c01.settled_model(chk, m, c["machine"], c["input"], r.exec_arn, r.plans.oracle(), r.requests)
         if m["status"] in ("FUEL", "UNSUPPORTED") or m.get("tieFail") or enginerun.oracle_order_ambiguous(m, r.requests, True) or r.errors:
             chk.dist("generated.not_compared.%s" % ("engine-error" if r.errors else m["status"] if m["status"] in ("FUEL", "UNSUPPORTED")
                                                     else "tie-or-order"))
